@@ -317,7 +317,11 @@ def check_property(prop, tier, spec):
             'wall_s': round(time.time() - t0, 2),
             'violations': len(violations),
         }
-        with open(os.path.join(ROOT, 'evidence', f'{prop}.json'), 'w') as f:
+        # evidence describes /repo; a run against a scratch tree (selftest, seeded changes) leaves it alone
+        scratch = os.path.realpath(os.environ.get('VERIF_REPO', '/repo')) != os.path.realpath('/repo')
+        evdir = os.path.join(ROOT, '.work', 'scratch-evidence') if scratch else os.path.join(ROOT, 'evidence')
+        os.makedirs(evdir, exist_ok=True)
+        with open(os.path.join(evdir, f'{prop}.json'), 'w') as f:
             json.dump(ev, f, indent=1)
 
         # ---- verdict lines --------------------------------------------------------
